@@ -78,7 +78,7 @@ type Module struct {
 type Step struct {
 	// Op: start | enable | disable | manage | launch | relaunch | waitfinish | poststop | shutdown (US = further concurrent
 	// callers) | sleep | sigstorm (US = attempts) | straddle (microtasks of US microseconds on modules that are not
-	// online) | waitstraddle
+	// online) | waitstraddle | trigger (the event of the listed modules once more)
 	Op   string   `json:"op"`
 	Mods []string `json:"mods,omitempty"`
 	US   int      `json:"us,omitempty"`
